@@ -286,11 +286,42 @@ def stream_of(doc, form, raw):
     return io.BytesIO(text.encode(form.split(" ", 1)[1], "surrogatepass"))
 
 
+def big_texts():
+    import json
+
+    yield "array text of about 1.2 MiB", json.dumps([{"i": i, "s": "x" * 50} for i in range(17000)])
+    yield "plain text without brackets, 1.1 MiB", "lorem ipsum " * 96000
+    yield "plain text without brackets, 3 MiB", "a" * (3 << 20)
+    yield "JSON text of one string of 1.5 MiB", json.dumps("s" * (3 << 19))
+    yield "JSON text of one string just over 1 MiB", json.dumps("s" * ((1 << 20) + 5))
+    yield "JSON text of one string just under 1 MiB", json.dumps("s" * ((1 << 20) - 5))
+    yield "number text", "12"
+    yield "object text of about 2 MiB", json.dumps({"k%d" % i: [i, "v" * 100] for i in range(16000)})
+
+
+def run_big_texts(ctx):
+    """Documents supplied as very long text (sizes on either side of 1 MiB): sync against async."""
+    import jsonpath
+
+    env = jsonpath.DEFAULT_ENV
+    for label, text_doc in big_texts():
+        for q in ("$", "$[0]", "$ | $", "$..*[0]" if text_doc[:1] in "[{" and len(text_doc) < (3 << 19) else "$.a", "$[?@.i == 3].s", "$ & $", "^[0]"):
+            s = impl.call(lambda: sync_outcome(env, q, text_doc))
+            a = impl.call(lambda: asyncio.run(async_outcome(env, q, text_doc)))
+            ctx.evaluation()
+            ctx.cell("document_forms", "text: " + label)
+            if s.ok and a.ok and a.value != s.value:
+                ctx.violation("async-differs-from-sync-on-a-long-text-document", {"kind": "big-text", "label": label, "text": q}, {"query": q, "document": label, "sync": repr(s.value[0])[:200], "async": repr(a.value[0])[:200]})
+                return
+
+
 def run_streams(ctx, n, fixed=None):
     import jsonpath
 
     env = jsonpath.DEFAULT_ENV
     r = ctx.rng
+    if not fixed:
+        run_big_texts(ctx)
     for i in range(n):
         if fixed:
             text, doc = fixed
@@ -458,6 +489,9 @@ def replay(case, ctx):
         return
     if case.get("kind") == "scale":
         run_scale(ctx, case["n"], case["text"])
+        return
+    if case.get("kind") == "big-text":
+        run_big_texts(ctx)
         return
     if case.get("kind") == "streams":
         run_streams(ctx, 1, fixed=(case["text"], case["doc"]))
